@@ -38,7 +38,10 @@ CrashVerdict(c) ==
   ELSE IF c.head \notin HeadsOf(heads) THEN "StateNotBeforeOrAfter"
   ELSE IF c.wc = "error" THEN "WorkingCopyUnusable"
   ELSE IF c.wc = "stale" /\ ~wcStaleOk THEN "UnexpectedStaleWorkingCopy"
-  ELSE IF c.wc = "fresh" /\ wcPhase # "clean" THEN "PartialUpdateNotDetected"
+  \* files half-written and tree_state still the old one: jj must notice (stale).  Once
+  \* tree_state is saved, files and recorded tree agree with the target commit and jj
+  \* legitimately treats the working copy as fresh even though `checkout` lags.
+  ELSE IF c.wc = "fresh" /\ wcPhase = "updating" THEN "PartialUpdateNotDetected"
   ELSE IF ~c.recovered THEN "RecoveryFailed"
   ELSE IF c.lost > 0 THEN "FilesLost"
   ELSE "ok"
